@@ -236,3 +236,64 @@ Proof.
   - destruct (N.eqb_spec r (R_STORE t)) as [->|H2]; [reflexivity|].
     destruct (N.eqb r R_ENT); reflexivity.
 Qed.
+
+(* ------------------------------------------------------------------ tuples that can be fetched at all *)
+
+Definition h_comp (h : handle) : list N := match h with HRead t | HWrite t => [t] | _ => [] end.
+(* every component type is named by at most one storage handle of the tuple *)
+Definition handles_ok (hs : list handle) : Prop := NoDup (flat_map h_comp hs).
+
+Lemma in_decl_writes hs r : In r (decl_writes hs) <-> exists t, r = R_STORE t /\ In (HWrite t) hs.
+Proof.
+  unfold decl_writes. rewrite in_flat_map. split.
+  - intros [h [Hh Hr]]. destruct h; cbn in Hr; try contradiction. destruct Hr as [<-|[]]. eauto.
+  - intros [t [-> Hh]]. exists (HWrite t). split; [assumption|left; reflexivity].
+Qed.
+
+Lemma in_decl_reads hs r : In r (decl_reads hs) ->
+  r = R_ENT \/ r = R_LAZY \/ exists t, r = R_STORE t /\ In (HRead t) hs.
+Proof.
+  unfold decl_reads. rewrite in_flat_map. intros [h [Hh Hr]]. destruct h; cbn in Hr.
+  - destruct Hr as [<-|[]]. auto.
+  - destruct Hr as [<-|[]]. auto.
+  - destruct Hr as [<-|[<-|[]]]; [auto|]. right. right. eauto.
+  - destruct Hr as [<-|[]]. auto.
+Qed.
+
+Lemma flat_map_nodup_disjoint {A B} (f : A -> list B) l :
+  NoDup (flat_map f l) -> forall a b x, In a l -> In b l -> a <> b -> In x (f a) -> In x (f b) -> False.
+Proof.
+  induction l as [|y l IH]; cbn [flat_map]; intros Hn a b x Ha Hb Hne Hxa Hxb; [destruct Ha|].
+  assert (Hn2 : NoDup (flat_map f l)).
+  { clear -Hn. induction (f y) as [|z fy IHf]; cbn in Hn; [assumption|]. inversion Hn; auto. }
+  assert (Hd : forall z, In z (f y) -> In z (flat_map f l) -> False).
+  { clear -Hn. induction (f y) as [|z0 fy IHf]; cbn in Hn; intros z Hz Hz2; [destruct Hz|].
+    inversion Hn as [|? ? Hni Hn']; subst. destruct Hz as [->|Hz].
+    - apply Hni. apply in_or_app. right. assumption.
+    - eapply IHf; eauto. }
+  destruct Ha as [->|Ha], Hb as [->|Hb].
+  - congruence.
+  - apply (Hd x Hxa). apply in_flat_map. eauto.
+  - apply (Hd x Hxb). apply in_flat_map. eauto.
+  - eapply IH; eauto.
+Qed.
+
+Lemma handles_self_ok hs id deps t : handles_ok hs ->
+  self_ok {| s_id := id; s_reads := decl_reads hs; s_writes := decl_writes hs; s_deps := deps; s_time := t |}.
+Proof.
+  intros Hok. unfold self_ok. cbn [s_reads s_writes]. split.
+  - unfold handles_ok in Hok. induction hs as [|h hs IH]; [constructor|].
+    assert (Hok' : NoDup (flat_map h_comp hs)).
+    { cbn [flat_map] in Hok. destruct h; cbn in Hok; try assumption; inversion Hok; assumption. }
+    unfold decl_writes. cbn [flat_map]. fold (decl_writes hs).
+    destruct h; cbn [decl snd app]; try (apply IH; assumption).
+    constructor; [|apply IH; assumption].
+    intros Hin. apply in_decl_writes in Hin. destruct Hin as [t' [E Hin]].
+    assert (t0 = t') by (unfold R_STORE in E; lia). subst t'.
+    cbn in Hok. inversion Hok as [|? ? Hni _]; subst. apply Hni. apply in_flat_map.
+    exists (HWrite t0). split; [assumption|left; reflexivity].
+  - intros r Hw Hr. apply in_decl_writes in Hw. destruct Hw as [tw [-> Hw]].
+    apply in_decl_reads in Hr. destruct Hr as [E|[E|[tr [E Hr]]]]; try (unfold R_STORE, R_ENT, R_LAZY in E; lia).
+    assert (tw = tr) by (unfold R_STORE in E; lia). subst tr.
+    apply (flat_map_nodup_disjoint h_comp hs Hok (HWrite tw) (HRead tw) tw); auto; try discriminate; left; reflexivity.
+Qed.
